@@ -40,7 +40,7 @@ pub fn base3() -> Vec<Vec<u8>> {
 
 /// prefix / suffix / use_graphemes configurations
 pub const CONFIGS: [(&[&str], &[&str], bool); 3] =
-    [(&[], &[], true), (&["<bos>"], &["<eos>"], false), (&["<bos>", "<bos>"], &["<eos>"], true)];
+    [(&[], &[], true), (&["<bos>"], &["<eos>"], false), (&["<bos>", "<pad>"], &["<eos>"], true)];
 
 // ------------------------------------------------------------------------------------------------
 // tables
